@@ -73,10 +73,13 @@ type vSim struct {
 	sendCalls   int
 	failSendAt  int
 	failedSends int
+	// receives: the recvErrAt-th Receive (0-based; -1 none) fails with a non-transient errno
+	recvErrAt int
+	recvErrno syscall.Errno
 }
 
 func newSim() *vSim {
-	s := &vSim{buf: make([]byte, 16+64), maxUnsol: vParam("unsol", 1), maxTrans: vParam("trans", 1), allowBad: vParam("bad", 1) != 0, failSendAt: -1}
+	s := &vSim{buf: make([]byte, 16+64), maxUnsol: vParam("unsol", 1), maxTrans: vParam("trans", 1), allowBad: vParam("bad", 1) != 0, failSendAt: -1, recvErrAt: -1}
 	s.nextSeq = vU32("seq0")
 	vAssume(s.nextSeq != 0)
 	return s
@@ -165,6 +168,9 @@ func (s *vSim) planAck(rq *vRequest, idx int, e uint32) {
 
 func (s *vSim) Receive(nonBlocking bool, p NetlinkParser) ([]syscall.NetlinkMessage, error) {
 	s.recvs++
+	if s.recvs-1 == s.recvErrAt {
+		return nil, s.recvErrno // the socket reports a hard error; what is queued stays queued
+	}
 	if len(s.queue) == 0 {
 		s.starved++
 		return nil, syscall.EAGAIN
@@ -375,7 +381,13 @@ func VH_ClientSendFail() {
 	s.plain = true
 	c := &AuditClient{Netlink: s}
 	method := vChoose("method", vmCount)
-	s.failSendAt = vChoose("failat", 3) // DeleteRules sends 1 + one per rule
+	if vParam("recvfail", 0) != 0 {
+		// instead: one of the first three receives fails with a hard errno
+		s.recvErrAt = vChoose("recvfailat", 3)
+		s.recvErrno = []syscall.Errno{syscall.ENOBUFS, syscall.EBADF}[vChoose("recverrno", 2)]
+	} else {
+		s.failSendAt = vChoose("failat", 3) // DeleteRules sends 1 + one per rule
+	}
 	var err error
 	switch method {
 	case vmGetStatus:
@@ -410,6 +422,9 @@ func VH_ClientSendFail() {
 	if s.failedSends > 0 {
 		vReach("C08/send-failed")
 		vAssert(err != nil, "C08/nil-although-send-failed")
+	} else if s.recvErrAt >= 0 && s.recvs > s.recvErrAt {
+		vReach("C08/receive-failed")
+		vAssert(err != nil, "C08/nil-although-receive-failed-hard")
 	} else {
 		allOK := true
 		for _, rq := range s.reqs {
@@ -511,6 +526,11 @@ func VH_ClientSetters() {
 	wm := WaitForReply
 	if vChoose("waitmode", 2) == 1 {
 		wm = NoWait
+	}
+	if vParam("recvfail", 0) != 0 {
+		// one of the first receives fails with an errno that is not EINTR/EAGAIN
+		s.recvErrAt = vChoose("recvfailat", 2)
+		s.recvErrno = []syscall.Errno{syscall.ENOBUFS, syscall.EBADF, syscall.ECONNREFUSED}[vChoose("recverrno", 3)]
 	}
 	switch vChoose("setter", 8) {
 	case 0:
